@@ -98,9 +98,18 @@ def adjust(line, opts, r):
     return line, opts, changed
 
 
+def materialise_source(line, opts):
+    """`x[i] = x[j];` on a struct-array VARIABLE reaches the struct-store executor only when the source element x[j] has been
+    read or written before (element variables are materialised lazily; from a never-touched element the store is lost, also
+    on non-const arrays - not a const matter): such cases are rendered with the observation before the stores."""
+    if opts.get("subsrc") == "elem" and not opts.get("obs_before", True) and is_sub(line) and struct_array_root(line):
+        return dict(opts, obs_before=True)
+    return opts
+
+
 def run_cases(impl, cases):
     """cases: list of (pscript, opts) -> rows (pscript, opts, program, model result, (rc,out,err), class, detail, plan)"""
-    cases = list(cases)
+    cases = [(line, materialise_source(line, opts)) for line, opts in cases]
     res = prun([c[0] for c in cases])
     redo = []
     for k, ((line, opts), r) in enumerate(zip(cases, res)):
@@ -222,9 +231,8 @@ def ways_for(line, placement):
     first whole assignment initialises it), and not on copy-initialised / parameter consts (finding
     C09-copy-init-const-element-literal: the copy leaves the elements of struct-array members unassigned)."""
     if scalar_array_root(line):
-        # a const array declared without initialiser is initialised by its first element stores; a const array
-        # initialised from another array VARIABLE is not protected at all (finding C09-const-array-copy-init)
-        return ["lit", "param", "global", "gcallee", "static"] if placement == "root" else ["lit", "copy", "noinit", "global", "gcallee", "static"]
+        # a const array declared without initialiser is initialised by its first element stores
+        return ["lit", "copy", "param", "global", "gcallee", "static"] if placement == "root" else ["lit", "copy", "noinit", "global", "gcallee", "static"]
     if struct_array_root(line):
         if is_sub(line):
             return ["lit", "param"] if placement == "root" else ["lit"]
@@ -253,8 +261,6 @@ def draw_opts(rng, line, placement):
     if w in ("copy", "noinit", "param") and lt not in G.ARITH_TYPES:
         lt = "int"           # (copies of structs with cells of other types are incomplete in ways that swallow later stores)
         rhs = rng.choice(["lit", "var", "expr", "call"])
-    if scalar_array_root(line) and lt in ("double", "float"):
-        lt = "long"          # finding C09-const-float-array: element stores into const arrays of floating type are not tested
     return {"ways": w, "lt": lt, "rhs": rhs, "inc": rng.choice(["post", "pre"]), "obs_before": rng.random() < 0.85,
             "subsrc": rng.choice(["var", "var", "elem", "call"])}
 
@@ -469,7 +475,7 @@ def run(rep, impl, seed, tier, findings):
                     jobs.append((c, dict(o, ways=w, lt="int" if arith(c["script"]) or w != "lit" else o["lt"])))
             if c["kind"] == "set":
                 _, cops = G.parse_pscript(c["script"])
-                if cops[0]["f"] == "s" and not scalar_array_root(c["script"]):
+                if cops[0]["f"] == "s":
                     # ... every scalar type of the target cell (the executors differ by the type of the value) ...
                     for lt in G.LEAF_TYPES:
                         if lt != o["lt"]:
